@@ -98,6 +98,20 @@ def qsa_ctrl_positional_broadcast(t, outcome):
     return t
 
 
+def qsa_ctrl_duplicate_conjunct(tn, tid1, tid2, compress_matrices=True):
+    # C12 pair-predicate control: the same conjunct twice, the second tensor is never looked at
+    if (not compress_matrices) and (len(tn._get_neighbor_tids([tid1])) <= 2) and (len(tn._get_neighbor_tids([tid1])) <= 2):
+        return True
+    return False
+
+
+def qsa_ctrl_dead_opts(tn, seq, canonize_opts=None, **kwargs):
+    # C12 option-dict control: the dict is completed and then never handed on
+    canonize_opts = dict(canonize_opts or {})
+    canonize_opts["exclude"] = seq
+    return tn._contract_compressed_tid_sequence(seq, **kwargs)
+
+
 def qsa_ctrl_none_vs_zero(A, k=6, sigma=None):
     # C17 none-vs-zero control: sigma=0 falls through to the 'not given' branch
     which = "TR" if sigma else "SA"
